@@ -97,6 +97,7 @@ def register_sort_loops(reg):
     reg.add(Contract(
         file=SORT, func="sort", variant="#passes", fragment=("gaf_alignments = []", "if index_file is not None:", 0),
         params=dict(reader=io_c.Reader, nodes=DictT(STR, GNode), writer=ListT(LINE), index_dict=IndexDict, index_file=Opt(STR)),
+        modifies=["reader", "writer", "index_dict"],
         types=dict(Alignment=SortRec, STR=STR, INT=INT),
         ufuns={"fields_of": ([STR], LINE), "rstrip": ([STR], STR), "woff": ([INT], INT)},
         ghost=dict(seen=MapT(STR, BOOL), firstpos=MapT(STR, INT), lastpos=MapT(STR, INT), w0=INT, sort_perm=MapT(INT, INT), sort_perm_inv=MapT(INT, INT),
